@@ -30,14 +30,29 @@ THEOREMS = [
     "SqlglotModel.Properties.C10.normalize_requote_stable",
     "SqlglotModel.Properties.C10.generated_fold_table_ok",
     "SqlglotModel.Properties.C10.generated_pipeline_ok",
+    "SqlglotModel.Properties.C10.default_qualifier_case_preserved",
+    "SqlglotModel.Properties.C10.generated_default_qualifier_ok",
+    "SqlglotModel.Properties.C10.default_qualifier_needs_tag_first",
+    "SqlglotModel.Properties.C10.normalizeT_base",
+    "SqlglotModel.Properties.C10.normalizeT_table_sensitive",
     "SqlglotModel.Properties.C10.qualify_complete",
     "SqlglotModel.Properties.C10.qualify_complete_all",
     "SqlglotModel.Properties.C10.star_expansion_schema_order",
+    "SqlglotModel.Properties.C10.star_expansion_using",
+    "SqlglotModel.Properties.C10.star_expansion_using_merged",
+    "SqlglotModel.Properties.C10.star_expansion_using_witness",
+    "SqlglotModel.Properties.C10.star_using_drops_later_column_witness",
     "SqlglotModel.Properties.C10.star_order_tables_first_witness",
     "SqlglotModel.Properties.C10.unresolved_raises",
     "SqlglotModel.Properties.C10.unresolved_raises_witnesses",
+    "SqlglotModel.Properties.C10.qualify_idempotent_scope",
+    "SqlglotModel.Properties.C10.qualify_idempotent",
+    "SqlglotModel.Properties.C10.having_bare_not_idempotent_counterexample",
+    "SqlglotModel.Properties.C10.validate_sees",
+    "SqlglotModel.Properties.C10.validate_having_blind_to_bare_names",
     "SqlglotModel.Properties.C10.qualify_idempotent_partial",
     "SqlglotModel.Properties.C10.qualify_idempotent_all_partial",
+    "SqlglotModel.Properties.C10.output_names_preserved",
     "SqlglotModel.Properties.C10.output_names_partial",
     "SqlglotModel.Properties.C10.alias_ref_projection_renamed_counterexample",
     "SqlglotModel.Properties.C10.having_bare_counterexample",
@@ -116,6 +131,38 @@ def call_names(fn_node, wanted):
     return out
 
 
+def default_qualifier_tag_first(chk: Check) -> bool:
+    """ast of qualify_tables.py: in every function that tags an identifier variable with meta["is_table"], is the tag
+    assigned before that variable goes through normalize_identifiers(...)?  (BigQuery reads the tag while normalising)"""
+    src = open(os.path.join(REPO, "sqlglot", "optimizer", "qualify_tables.py"), encoding="utf-8").read()
+    tree = ast.parse(src)
+    verdicts = []
+    for fn in [n for n in ast.walk(tree) if isinstance(n, (ast.FunctionDef, ast.AsyncFunctionDef))]:
+        own = [n for n in ast.walk(fn)]
+        inner = {id(x) for sub in own if isinstance(sub, (ast.FunctionDef, ast.AsyncFunctionDef)) and sub is not fn for x in ast.walk(sub)}
+        tags, norms = {}, {}
+        for n in own:
+            if id(n) in inner:
+                continue
+            if isinstance(n, ast.Assign) and len(n.targets) == 1 and isinstance(n.targets[0], ast.Subscript):
+                t = n.targets[0]
+                if isinstance(t.value, ast.Attribute) and t.value.attr == "meta" and isinstance(t.value.value, ast.Name) \
+                        and isinstance(t.slice, ast.Constant) and t.slice.value == "is_table":
+                    tags.setdefault(t.value.value.id, []).append(n.lineno)
+            if isinstance(n, ast.Call) and isinstance(n.func, ast.Name) and n.func.id == "normalize_identifiers" and n.args \
+                    and isinstance(n.args[0], ast.Name):
+                norms.setdefault(n.args[0].id, []).append(n.lineno)
+        for v, tl in tags.items():
+            if v in norms:
+                verdicts.append(min(tl) < min(norms[v]))
+            else:
+                verdicts.append(None)
+    if not verdicts or any(v is None for v in verdicts):
+        chk.broken.append({"kind": "translator", "what": "structure changed: qualify_tables no longer tags + normalises the default db/catalog in one function"})
+        return False
+    return all(verdicts)
+
+
 def translate(chk: Check) -> str:
     rows = dialect_rows()
     chk.cov["dialects"] = len(rows)
@@ -164,6 +211,10 @@ def translate(chk: Check) -> str:
     L.append(f"def pipeline : List String := {lean_list(lean_str(x) for x in pipeline)}")
     L.append("/-- order of the per-scope steps inside qualify_columns() (non-empty schema) -/")
     L.append(f"def scopeSteps : List String := {lean_list(lean_str(x) for x in steps)}")
+    tag_first = default_qualifier_tag_first(chk)
+    chk.cov["default_qualifier_tag_first"] = tag_first
+    L.append("/-- qualify_tables: is the default db / catalog identifier tagged meta[\"is_table\"] BEFORE it is normalised? -/")
+    L.append(f"def defaultQualifierTagFirst : Bool := {lean_bool(tag_first)}")
     L.append("end SqlglotModel.Generated.C10")
     return "\n".join(L) + "\n"
 
@@ -194,6 +245,11 @@ def expr_ir(e):
         return {"l": int(e.this)}
     if isinstance(e, exp.Paren):
         return {"p": expr_ir(e.this)}
+    if isinstance(e, exp.Coalesce):
+        args = [e.this] + list(e.expressions)
+        if all(isinstance(a, exp.Column) and a.args.get("table") is not None and not a.args.get("db") for a in args):
+            return {"f": [[ident_pair(a.args["table"]), ident_pair(a.this)] for a in args]}
+        raise Outside("coalesce")
     k = type(e).__name__
     if k in OPS and type(e).__module__.startswith("sqlglot.expressions"):
         return {"b": [OPS[k], expr_ir(e.this), expr_ir(e.expression)]}
@@ -233,12 +289,21 @@ def ast_to_ir(root, dialect):
         if f is None:
             raise Outside("no from")
         items.append(f.this)
+        joins_ir = []
         for j in sel.args.get("joins") or []:
             for k, v in j.args.items():
-                if k not in ("this", "kind") and v not in (None, [], False):
+                if k not in ("this", "kind", "side", "method", "using", "on") and v not in (None, [], False):
                     raise Outside("join arg " + k)
-            if j.args.get("kind") not in (None, "CROSS"):
-                raise Outside("join kind")
+            if j.args.get("kind") not in (None, "CROSS", "INNER", "OUTER"):
+                raise Outside("join kind")  # SEMI / ANTI: the right side is not a selected source
+            if j.args.get("method") not in (None, "NATURAL"):
+                raise Outside("join method")
+            us = j.args.get("using") or []
+            if any(not isinstance(u, exp.Identifier) for u in us):
+                raise Outside("using expr")
+            on = j.args.get("on")
+            joins_ir.append({"natural": j.args.get("method") == "NATURAL", "using": [ident_pair(u) for u in us],
+                             "on": expr_ir(on) if on is not None else None})
             items.append(j.this)
         for it in items:
             if isinstance(it, exp.Table):
@@ -315,7 +380,7 @@ def ast_to_ir(root, dialect):
                     raise Outside("ordered args")
                 order.append(expr_ir(o.this))
         scopes.append({
-            "outer": outer, "srcs": srcs, "projs": projs,
+            "outer": outer, "srcs": srcs, "joins": joins_ir, "projs": projs,
             "where": expr_ir(wh.this) if wh is not None else None,
             "group": [expr_ir(g) for g in gr.expressions] if gr is not None else [],
             "having": expr_ir(hv.this) if hv is not None else None,
@@ -341,6 +406,8 @@ def names_only(scopes):
             return {"l": e["l"]}
         if "p" in e:
             return {"p": ex(e["p"])}
+        if "f" in e:
+            return {"f": [[nm(a), nm(b)] for a, b in e["f"]]}
         return {"b": [e["b"][0], ex(e["b"][1]), ex(e["b"][2])]}
 
     out = []
@@ -357,7 +424,8 @@ def names_only(scopes):
                 projs.append({"star": nm(p["star"]), "except": [nm(x) for x in p["except"]]})
             else:
                 projs.append({"e": ex(p["e"]), "alias": nm(p["alias"])})
-        out.append({"outer": [nm(x) for x in s["outer"]], "srcs": srcs, "projs": projs, "where": ex(s["where"]),
+        joins = [{"natural": j["natural"], "using": [nm(u) for u in j["using"]], "on": ex(j["on"])} for j in s["joins"]]
+        out.append({"outer": [nm(x) for x in s["outer"]], "srcs": srcs, "joins": joins, "projs": projs, "where": ex(s["where"]),
                     "group": [ex(g) for g in s["group"]], "having": ex(s["having"]), "order": [ex(o) for o in s["order"]]})
     return out
 
@@ -559,7 +627,19 @@ class Gen:
                 jr = rng.random()
                 prev_cols = [c for _, cs in srcs[:-1] for c in cs]
                 common = [c for c in srcs[-1][1] if c in prev_cols]
-                if not self.model and jr < 0.3 and common:
+                if self.model and jr < 0.3 and common:
+                    self.features.add("using")
+                    us = rng.sample(common, rng.choice([1, 1, min(2, len(common))]))
+                    from_sql.append(f" {rng.choice(['', '', 'LEFT ', 'INNER '])}JOIN {s} USING ({', '.join(self.ref(u, 0.03) for u in us)})")
+                elif self.model and jr < 0.36 and common:
+                    self.features.add("natural")
+                    from_sql.append(f" NATURAL JOIN {s}")
+                elif self.model and jr < 0.5 and srcs[-1][1] and any(cs for _, cs in srcs[:-1]):
+                    self.features.add("join-on-qualified")
+                    la, lcs = rng.choice([(a, cs) for a, cs in srcs[:-1] if cs])
+                    from_sql.append(f" JOIN {s} ON {self.ref(la, 0.03)}.{self.ref(rng.choice(lcs), 0.03)} = "
+                                    f"{self.ref(srcs[-1][0], 0.03)}.{self.ref(rng.choice(srcs[-1][1]), 0.03)}")
+                elif not self.model and jr < 0.3 and common:
                     self.features.add("using")
                     kind = ""
                     if rng.random() < 0.2:
@@ -741,12 +821,22 @@ def is_source_position(sel):
 
 
 def visible_names(sel):
+    """aliases a column of `sel` may name: its own sources; for a (correlated) subquery also the enclosing selects'.
+    The body of a derived table / CTE does not see its SIBLING sources (the select it is a source of), but a derived
+    table nested inside a correlated subquery still sees the outer query (sqlglot: Scope.can_be_correlated)."""
+    _, exp, *_ = sg()
     names = set()
     s = sel
+    skip = False
     while s is not None:
-        for it in own_sources(s):
-            names.add(it.alias_or_name)
-        if is_source_position(s):
+        if not skip:
+            for it in own_sources(s):
+                names.add(it.alias_or_name)
+        skip = is_source_position(s)
+        p = s.parent
+        while isinstance(p, (exp.Subquery, exp.Paren, exp.SetOperation)):
+            p = p.parent
+        if isinstance(p, exp.CTE):
             break
         s = enclosing_select(s)
     return names
@@ -1170,6 +1260,84 @@ def correspond_idents(chk: Check):
             chk.correspondence_broken(f"{i[0]} differs from the Lean mirror", {"case": i, "model": g, "impl": e})
 
 
+def correspond_table_sensitive(chk: Check):
+    """BigQuery.normalize_identifier in its contexts, and qualify_tables' default db / catalog, vs normalizeT / defaultQualifier"""
+    sqlglot, exp, Dialect, Dialects, *_ = sg()
+    from sqlglot.optimizer.qualify_tables import qualify_tables
+
+    rows = dialect_rows()
+    lines, expect, info = [], [], []
+    names = ["a", "MyDs", "ABC", "x_Y1"]
+    for r in rows:
+        d = r["name"] or None
+        dd = Dialect.get_or_raise(d)
+        ts = not r["base_normalize"]
+        st = dd.normalization_strategy.value
+        if ts:
+            for nm in names:
+                for quoted in (False, True):
+                    for ctx in ("column", "table", "table.db:name", "table.db:db", "tag", "quoted_table", "maybe_column", "udf"):
+                        i = exp.Identifier(this=nm, quoted=quoted)
+                        c = {"udf": False, "twd": False, "qt": False, "mc": False, "tag": False}
+                        if ctx == "column":
+                            exp.Column(this=i)
+                        elif ctx == "table":
+                            exp.Table(this=i)
+                        elif ctx == "table.db:name":
+                            exp.Table(this=i, db=exp.to_identifier("d"))
+                            c["twd"] = True
+                        elif ctx == "table.db:db":
+                            exp.Table(this=exp.to_identifier("t"), db=i)
+                            c["twd"] = True
+                        elif ctx == "tag":
+                            i.meta["is_table"] = True
+                            c["tag"] = True
+                        elif ctx == "quoted_table":
+                            t = exp.Table(this=i, db=exp.to_identifier("d"))
+                            t.meta["quoted_table"] = True
+                            t.meta["maybe_column"] = True
+                            c.update(twd=True, qt=True, mc=True)
+                        elif ctx == "maybe_column":
+                            t = exp.Table(this=i, db=exp.to_identifier("d"))
+                            t.meta["maybe_column"] = True
+                            c.update(twd=True, mc=True)
+                        else:
+                            exp.UserDefinedFunction(this=exp.Dot(this=exp.to_identifier("p"), expression=i))
+                            c["udf"] = True
+                        out = dd.normalize_identifier(i)
+                        lines.append(json.dumps({"op": "normt", "st": st, "ts": True, "name": nm, "quoted": quoted, **c}))
+                        expect.append(f"{out.this}\t{'true' if out.args.get('quoted') else 'false'}")
+                        info.append(("normalize_identifier(" + ctx + ")", d, nm, quoted))
+        # the default db / catalog of qualify_tables (string and Identifier forms)
+        for nm in names:
+            for quoted in (False, True):
+                node = exp.Identifier(this=nm, quoted=quoted)
+                for form in ("text", "node"):
+                    for which in ("db", "catalog"):
+                        try:
+                            tree = sqlglot.parse_one("SELECT 1 FROM tbl" if which == "db" else "SELECT 1 FROM d.tbl", dialect=d)
+                        except Exception:  # noqa  (dialects without SELECT syntax: dax, prql)
+                            continue
+                        try:
+                            arg = node.sql(dialect=d) if form == "text" else node.copy()
+                            res = qualify_tables(tree, dialect=d, **{which: arg})
+                            tb = res.find(exp.Table)
+                            got = tb.args.get(which)
+                            g = f"{got.this}\t{'true' if got.args.get('quoted') else 'false'}" if got is not None else "<none>"
+                        except Exception as e:  # noqa
+                            g = "<" + type(e).__name__ + ">"
+                        lines.append(json.dumps({"op": "defq", "st": st, "ts": ts, "name": nm, "quoted": quoted}))
+                        expect.append(g)
+                        info.append((f"qualify_tables({which}=<{form}>)", d, nm, quoted))
+    got = chk.driver("C10", lines)
+    chk.corr_cases += len(lines)
+    for g, e, i in zip(got, expect, info):
+        chk.count("ident:" + i[0].split("(")[0])
+        if g != e:
+            chk.correspondence_broken(f"{i[0]} differs from the Lean mirror (normalizeT / defaultQualifier)",
+                                      {"case": i, "model": g, "impl": e})
+
+
 def gen_case(rng, dialect, model_stream, unicode_ok=False):
     g = Gen(rng, dialect, model_stream, unicode_ok)
     schema = g.fresh_schema()
@@ -1191,7 +1359,12 @@ def correspond_queries(chk: Check):
         if chk.quick and time.time() - t0 > 28:
             break
         dialect = rng.choice(dialects)
-        sql, schema, feats = gen_case(rng, dialect, True)
+        if rng.random() < 0.22:
+            # every join kind in every position over tables sharing column names, stars over each source
+            sql, schema = gen_join_star_case(rng, dialect)
+            feats = ["join-star-template"]
+        else:
+            sql, schema, feats = gen_case(rng, dialect, True)
         r = run_real(sql, schema, dialect)
         chk.count("corr:" + r["status"])
         if r["status"] == "parse":
@@ -1668,8 +1841,12 @@ def run(chk: Check) -> None:
                        "taken from the real code as the model's schema")
     chk.assumptions += [
         "CaseFns.Ok (lower/upper idempotent) validated against CPython (stride in quick, all code points in thorough)",
-        "model correspondence uses dialects with base normalize_identifier and default qualify flags, ASCII identifiers, cross joins only; "
-        "USING/ON joins, correlated subqueries, unions, non-ASCII names and the other dialects are covered by the search oracle only",
+        "model correspondence uses dialects with base normalize_identifier and default qualify flags and ASCII identifiers; joins: "
+        "CROSS / comma / USING / NATURAL / ON with qualified columns; SEMI/ANTI joins, ON conditions with bare names, correlated "
+        "subqueries, unions, non-ASCII names and the other dialects are covered by the search oracle only "
+        "(BigQuery.normalize_identifier and qualify_tables' default db/catalog are compared with normalizeT / defaultQualifier)",
+        "pipeline idempotence and output-name preservation are proved for scopes without USING/NATURAL joins whose stars were expanded "
+        "and (idempotence) with no bare name under HAVING; the rest is checked by correspondence (second application)",
         "a star over a source that exposes duplicate or unknown column names is left unexpanded by design (not counted as a violation)",
         "second-pass identity of the normalisation stage is proved per identifier (normalize_requote_stable), the scope stage on names",
     ]
@@ -1679,6 +1856,7 @@ def run(chk: Check) -> None:
     hints = []
     try:
         correspond_idents(chk)
+        correspond_table_sensitive(chk)
         hints = correspond_queries(chk)
     except HarnessError as e:
         if proved:
